@@ -168,6 +168,10 @@ func genCase(c int64) caseFile {
 				to := evmdrive.Addr(keys[labels[rng.Intn(len(labels))]])
 				mk := func(good bool) ([]byte, string) {
 					if !good {
+						if rng.Intn(3) == 0 {
+							// the whole gas range is bought before the transfer fails: nothing of it may be missing afterwards
+							return evmdrive.SignedTx(k, nonce[l], &to, 1+int64(rng.Intn(9)), ^uint64(0), 0, nil), "combo-value-unaffordable-max-gas"
+						}
 						return evmdrive.SignedTx(k, nonce[l], &to, 1+int64(rng.Intn(9)), 21000, 0, nil), "combo-value-unaffordable"
 					}
 					var t []byte
@@ -332,8 +336,13 @@ func genCase(c int64) caseFile {
 					tx = evmdrive.SignedTx(k, nonce[l], &to, 0, 21000, 1, nil)
 					kind = "gasprice-unaffordable"
 				case 5:
-					tx = evmdrive.SignedTx(k, nonce[l], &to, 1+int64(rng.Intn(100)), 21000, 0, nil)
+					gas := uint64(21000)
 					kind = "value-unaffordable"
+					if rng.Intn(2) == 0 {
+						gas = []uint64{^uint64(0), ^uint64(0), ^uint64(0) - 21000, 1 << 63, 1<<63 - 1<<20, 1 << 62}[rng.Intn(6)]
+						kind = "value-unaffordable-huge-gas"
+					}
+					tx = evmdrive.SignedTx(k, nonce[l], &to, 1+int64(rng.Intn(100)), gas, 0, nil)
 				default:
 					tx = evmdrive.SignedTx(k, nonce[l], &to, 0, 21000, 0, nil)
 					nonce[l]++
@@ -566,6 +575,60 @@ func runCase(run *lib.Run, c int64, base string) {
 			if d != "" {
 				run.Violation("invalid-tx-left-a-trace:"+d, fmt.Sprintf("case %d block %d: %s differs between the block with its invalid txs and the same block without them", c, bi+1, d),
 					witness(map[string]interface{}{"block": bi + 1, "with_invalid": a, "without_invalid": t}))
+				return
+			}
+		}
+	}
+	// (b') a second twin: the same blocks without the transactions that cannot be valid whatever else
+	// the block holds (value or gas price the sender cannot pay: every balance is 0). Taking them out
+	// must change nothing, in particular not which of the other transactions are valid.
+	certain := map[string]bool{"value-unaffordable": true, "value-unaffordable-huge-gas": true, "create-value-unaffordable": true, "call-value-unaffordable": true, "gasprice-unaffordable": true, "combo-value-unaffordable": true, "combo-value-unaffordable-max-gas": true}
+	tw := caseFile{Addrs: cf.Addrs, Keys: cf.Keys}
+	removed := 0
+	removedHex := map[string]bool{}
+	for bi := range cf.Blocks {
+		var keep []string
+		for ti, hx := range cf.Blocks[bi] {
+			if bi < len(cf.Kinds) && ti < len(cf.Kinds[bi]) && certain[cf.Kinds[bi][ti]] {
+				removed++
+				removedHex[hx] = true
+				continue
+			}
+			keep = append(keep, hx)
+		}
+		tw.Blocks = append(tw.Blocks, keep)
+	}
+	// a later "repeat" of removed bytes would stay in: leave such cases to the other rules
+	repeated := false
+	for _, b := range tw.Blocks {
+		for _, hx := range b {
+			if removedHex[hx] {
+				repeated = true
+			}
+		}
+	}
+	if removed > 0 && !repeated {
+		U, crash, inconcl := runChild(dir, tw, "U")
+		if inconcl || crash != "" || len(U) != len(A) {
+			run.Inconclusive(fmt.Sprintf("case %d: second twin run did not complete: %s", c, tailStr(crash, 300)))
+			return
+		}
+		run.Count("second_twin_runs", 1)
+		for bi := range A {
+			a, u := A[bi], U[bi]
+			d := ""
+			switch {
+			case fmt.Sprint(a.Valid) != fmt.Sprint(u.Valid):
+				d = "valid-list"
+			case a.App != u.App:
+				d = "apphash"
+			case fmt.Sprint(a.Nonces) != fmt.Sprint(u.Nonces):
+				d = "nonces"
+			}
+			run.Count("second_twin_blocks_compared", 1)
+			if d != "" {
+				run.Violation("validity-of-others-depends-on-an-invalid-tx:"+d, fmt.Sprintf("case %d block %d: %s differs between the chain with its unaffordable-value / unaffordable-gas-price transactions (%d in the case) and the same chain without them", c, bi+1, d, removed),
+					witness(map[string]interface{}{"block": bi + 1, "with": a, "without": u}))
 				return
 			}
 		}
